@@ -198,7 +198,7 @@ def _apply_section(sec, head, it, data, s0, e0, what, edits, drop, tags_box, ret
         if not m:
             raise GenError(f"template line {tl}: bad anchor syntax")
         nth = int(m.group(2)) if m.group(2) else None
-        anchor = m.group(1).replace("\\n", "\n")
+        anchor = m.group(1).replace("<NL>", "\n")
         off = s0 + find_anchor(data[s0:e0], anchor, nth, what)
         if kw == "after":
             off += len(anchor.encode())
@@ -210,7 +210,7 @@ def _apply_section(sec, head, it, data, s0, e0, what, edits, drop, tags_box, ret
         types = [x[0] for x in ms]
         if w[1].startswith("@"):
             # closure identified by the beginning of its source text (robust against reordering)
-            want = types[0].replace("\\n", "\n").encode()
+            want = types[0].replace("<NL>", "\n").encode()
             types = types[1:]
             hits = [c_ for c_ in it["closures"] if data[c_["span"][0]:c_["span"][1]].startswith(want)]
             if len(hits) != 1:
@@ -245,7 +245,7 @@ def _apply_section(sec, head, it, data, s0, e0, what, edits, drop, tags_box, ret
         if len(ms) != 2:
             raise GenError(f"template line {tl}: rewrite needs `from` => `to`")
         (frm, n1), (to, _) = ms
-        frm = frm.replace("\\n", "\n")
+        frm = frm.replace("<NL>", "\n")
         nth = int(n1) if n1 else None
         off = s0 + find_anchor(data[s0:e0], frm, nth, what)
         edits.append(Edit(off, off + len(frm.encode()), to, "X4:rewrite", tl))
